@@ -279,6 +279,14 @@ class ScriptedPeer(object):
                     conn.sendall(b"HTTP/1.1 200 OK\r\nContent-Type: application/json-rpc\r\nTransfer-Encoding: chunked\r\n\r\n" +
                                  b"800\r\n" + full[:2048] + b"\r\n" + b"400\r\n" + full[2048:2100])
                     return
+                elif item == "E5BIG":
+                    # an error page much larger than what arrives with the headers, on a connection that is kept alive
+                    send(b"503 Service Unavailable", b"<html>" + b"x" * 20000 + b"</html>")
+                elif item in ("J601", "J42"):
+                    # a healthy exchange whose JSON-RPC reply reports an error (pre-defined code / application code with data)
+                    err = {"code": -32601, "message": "Method not found"} if item == "J601" else {"code": 42, "message": "app", "data": {"k": [1, 2]}}
+                    d = {"jsonrpc": "2.0", "id": rid, "error": err} if v2 else {"id": rid, "result": None, "error": err}
+                    send(b"200 OK", json.dumps(d).encode())
                 elif item == "E0":
                     send(b"200 OK", b"")
                 elif item == "NJ":
